@@ -30,6 +30,12 @@ CHECKS = {
   text="Exploration: histories of 5-9 operations (rks/uks, single/batched, repeated, other molecule or geometry, tiny max_memory) on ONE CiderNumInt per feature family are compared step by step with fresh-object single calls (1e-9 x scale; observed floor 1e-15); caller-owned density matrices, feature arrays and the arrays given to the pointwise helpers are digested before/after; evaluator chunking around 2000 samples.",
   note="Bitwise equality not demanded; reference = same code on fresh objects (so a defect common to both is invisible here, C01 covers it).",
   ref="5/C09"),
+
+ "C19": dict(
+  technique="runtime monitoring: exact structural invariants of the built grid objects (sorted point tables vs PySCF, index-map injectivity, independent coordinate reconstruction, padding, pruning, per-shell Ylm orthonormality) over generated configurations",
+  text="Exploration: CiderGrids and pyscf Grids are built for generated (molecule, level | atom_grid form, prune scheme, lmax, alignment, sort, radial/Becke scheme) configurations and call histories (prune_by_density_ sequences, rebuild, relevel); sorted (x,y,z,w) tables must be bitwise equal, idx_map injective, coordinates reconstructed from the indexer tables alone equal the sorted grid (1e-13), weights exact, padding weights exactly zero, Ylm Gram matrices identity up to the supported degree (1e-12) and zero above. lmax < 1 must be rejected (ASan worker).",
+  note="pyscf's grid generator is the reference by definition; Lebedev degree table from pyscf.",
+  ref="5/C19"),
 }
 
 NOT_YET = "check not implemented yet (framework under construction)"
